@@ -131,6 +131,10 @@ func (c *NamedCollectionNames) FindRegex(key *regexp.Regexp) []types.MatchData {
 }
 
 func (c *NamedCollectionNames) FindString(key string) []types.MatchData {
+	if !c.collection.isCaseSensitive {
+		// the underlying map stores the names lowercased, as Map.FindString does
+		key = strings.ToLower(key)
+	}
 	data, ok := c.collection.data[key]
 	if !ok || len(data) == 0 {
 		return nil
